@@ -91,7 +91,7 @@ Proof.
     rewrite (filter_seq_out (map snd d) (np + length pch)) by (intros x Hx Hi; apply Hinlegs in Hi; lia).
     rewrite (filter_seq_in (map snd d) (lp - 1)) by (intros x Hx; apply Hinlegs; lia).
     rewrite (filter_seq_out (map snd d) (lp - 1 + length cc)) by (intros x Hx Hi; apply Hinlegs in Hi; lia).
-    cbn. rewrite app_nil_r. reflexivity. }
+    reflexivity. }
   rewrite Hf, Hfilt, Hlegs in S4. rewrite P2, Hids in S3. cbn in S3.
   destruct first.
   - injection H as <-. repeat split.
